@@ -75,6 +75,39 @@ class Ord:
     def __hash__(self): return hash(self.rank)
     def __repr__(self): return f"v{self.rank}"
 
+    # the only arithmetic that leaves a loss what it is: 0 + v, v + 0, v / 1 (the mean of a single batch loss)
+    def __radd__(self, o):
+        if isinstance(o, int) and not isinstance(o, bool) and o == 0:
+            return self
+        raise Unsupported("arithmetic on a loss value")
+
+    __add__ = __radd__
+
+    def __truediv__(self, o):
+        if isinstance(o, int) and not isinstance(o, bool) and o == 1:
+            return self
+        raise Unsupported("arithmetic on a loss value")
+
+
+class NumOrd(Ord):
+    """A loss with a concrete numeric value, for scripted runs in which the values do not matter (data handling): sums
+    and means of such losses are again losses."""
+    __slots__ = ()
+
+    def __radd__(self, o):
+        if isinstance(o, (int, float)) and not isinstance(o, bool):
+            return NumOrd(self.rank + o)
+        if isinstance(o, Ord):
+            return NumOrd(self.rank + o.rank)
+        raise Unsupported("arithmetic on a loss value")
+
+    __add__ = __radd__
+
+    def __truediv__(self, o):
+        if isinstance(o, int) and not isinstance(o, bool) and o > 0:
+            return NumOrd(self.rank / o)
+        raise Unsupported("arithmetic on a loss value")
+
 
 def _rank(o):
     if isinstance(o, Ord):
@@ -83,6 +116,21 @@ def _rank(o):
 
 
 _NP_ORDER_FUNCS = {"array", "asarray", "argmin", "argmax", "min", "max", "amin", "amax", "stack", "flip", "argsort", "sort"}
+
+
+class StubObj:
+    """A scripted stand-in for an external object (optimiser, progress bar, ...): attributes are read with Python's
+    getattr; callables among them are called with evaluated arguments."""
+
+
+class RecordObj:
+    """Instance of a private NamedTuple / dataclass of the analysed module: fields in declaration order."""
+
+    def __init__(self, cls_name, names, values, methods, module, is_nt):
+        self.cls_name, self.names, self.values, self.methods, self.module, self.is_nt = cls_name, names, list(values), methods, module, is_nt
+
+    def __repr__(self):
+        return f"{self.cls_name}(" + ", ".join(f"{n}={v!r}" for n, v in zip(self.names, self.values)) + ")"
 
 
 class _Closure:
@@ -242,6 +290,9 @@ class Evaluator:
                     self.assign(e, x, env)
         elif isinstance(tgt, ast.Subscript):
             obj = self.ev(tgt.value, env)
+            if isinstance(obj, dict):
+                obj[self.index(tgt.slice, env)] = v
+                return
             if not isinstance(obj, (list, collections.deque)):
                 raise Unsupported("item assignment on a non-list")
             obj[self.index(tgt.slice, env)] = v
@@ -348,6 +399,12 @@ class Evaluator:
 
     # ------------------------------------------------------------------ expressions
     def iterate(self, v):
+        if isinstance(v, RecordObj) and v.is_nt:
+            return list(v.values)
+        if isinstance(v, dict):
+            return list(v.keys())
+        if isinstance(v, StubObj) and hasattr(v, "__iter__"):
+            return list(iter(v))
         if isinstance(v, ChainNode):
             return list(v.children)       # Chain.__iter__ yields the members in order (checked separately)
         if isinstance(v, (list, tuple, collections.deque, range)):
@@ -357,8 +414,10 @@ class Evaluator:
         raise Unsupported(f"iteration over {type(v).__name__}")
 
     def truth(self, v):
-        if isinstance(v, (bool, int, list, tuple, collections.deque, str, type(None))):
+        if isinstance(v, (bool, int, list, tuple, collections.deque, str, type(None), dict)):
             return bool(v)
+        if isinstance(v, (StubObj, RecordObj)):
+            return True
         if isinstance(v, ChainNode):
             return len(v.children) > 0    # Chain defines __len__
         if isinstance(v, (Leaf, Unwrapped, TransNode, BaseLeaf)):
@@ -374,6 +433,9 @@ class Evaluator:
         if name in env:
             return env[name]
         if name in self.module.classes:
+            rc = self.record_class(self.module, name)
+            if rc is not None:
+                return rc
             return self.qualified(self.module.classes[name].qualname)
         if name in self.module.functions:
             return _Closure(self.module.functions[name], {}, self, module=self.module)
@@ -384,7 +446,35 @@ class Evaluator:
             return ("builtin", name)
         raise Unsupported(f"name {name}")
 
+    def record_class(self, module, name):
+        """('record-class', ...) for a private NamedTuple / dataclass defined at module level, else None."""
+        ci = module.classes.get(name)
+        if ci is None or not name.startswith("_"):
+            return None
+        node = ci.node
+        bases = {ast.unparse(b).split(".")[-1] for b in node.bases}
+        decos = {ast.unparse(d.func if isinstance(d, ast.Call) else d).split(".")[-1] for d in node.decorator_list}
+        if "NamedTuple" not in bases and "dataclass" not in decos:
+            return None
+        names, defaults, methods = [], {}, {}
+        for st in node.body:
+            if isinstance(st, ast.AnnAssign) and isinstance(st.target, ast.Name) and "ClassVar" not in ast.unparse(st.annotation):
+                names.append(st.target.id)
+                if st.value is not None:
+                    defaults[st.target.id] = st.value
+            elif isinstance(st, ast.FunctionDef):
+                methods[st.name] = st
+        if any(k.startswith("__") for k in methods):
+            return None
+        return ("record-class", name, tuple(names), defaults, methods, module, "NamedTuple" in bases)
+
     def qualified(self, q):
+        stubs = getattr(self, "stubs", {})
+        if q in stubs:
+            v_ = stubs[q]
+            return ("stub", v_) if callable(v_) else v_
+        if any(k.startswith(q + ".") for k in stubs):
+            return ("module", q)
         try:
             r = self.prog.lookup(q)      # follow re-exports (flowjax.bijections.Chain -> flowjax.bijections.chain.Chain)
         except Exception:  # noqa: BLE001
@@ -431,12 +521,35 @@ class Evaluator:
                 else:
                     out.append(self.ev(x, env))
             return out if isinstance(e, ast.List) else tuple(out)
+        if isinstance(e, ast.Dict):
+            out = {}
+            for k, v in zip(e.keys, e.values):
+                if k is None:
+                    out.update(self.ev(v, env))
+                else:
+                    out[self.ev(k, env)] = self.ev(v, env)
+            return out
+        if isinstance(e, ast.DictComp):
+            out = {}
+            pairs = []
+            self.comp(e.generators, 0, ast.Tuple(elts=[e.key, e.value], ctx=ast.Load()), env, pairs)
+            for k, v in pairs:
+                out[k] = v
+            return out
+        if isinstance(e, ast.JoinedStr):
+            return "<formatted string>"
         if isinstance(e, ast.Attribute):
             base = self.ev(e.value, env)
             return self.getattr(base, e.attr)
         if isinstance(e, ast.Subscript):
             base = self.ev(e.value, env)
             idx = self.index(e.slice, env)
+            if isinstance(base, dict):
+                if idx not in base:
+                    raise Unsupported("missing dictionary key on a grid case")
+                return base[idx]
+            if isinstance(base, RecordObj) and base.is_nt and isinstance(idx, int):
+                return base.values[idx]
             if isinstance(base, ChainNode):
                 return ChainNode(base.children[idx]) if isinstance(idx, slice) else base.children[idx]
             if isinstance(base, collections.deque) and isinstance(idx, slice):
@@ -499,6 +612,12 @@ class Evaluator:
                 return a + b
             if isinstance(e.op, ast.Add) and isinstance(a, ChainNode) and isinstance(b, ChainNode):
                 raise Unsupported("Chain + Chain")
+            if isinstance(a, Ord) or isinstance(b, Ord):
+                if isinstance(e.op, ast.Add):
+                    return a + b
+                if isinstance(e.op, ast.Div) and isinstance(a, Ord):
+                    return a / b
+                raise Unsupported("arithmetic on a loss value")
             if isinstance(e.op, (ast.Sub, ast.Mult, ast.FloorDiv)) and isinstance(a, int) and isinstance(b, int):
                 return {ast.Sub: a - b, ast.Mult: a * b, ast.FloorDiv: a // b if b else 0}[type(e.op)]
             raise Unsupported("binary operator")
@@ -529,6 +648,34 @@ class Evaluator:
                 self.comp(gens, i + 1, elt, env2, out)
 
     def getattr(self, base, attr):
+        if isinstance(base, tuple) and base and base[0] == "module":
+            return self.qualified(base[1] + "." + attr)
+        if isinstance(base, tuple) and base[:2] == ("builtin", "itertools.chain") and attr == "from_iterable":
+            return ("builtin", "chain.from_iterable")
+        if isinstance(base, RecordObj):
+            if attr in base.names:
+                return base.values[base.names.index(attr)]
+            if attr == "_replace" and base.is_nt:
+                return ("record-replace", base)
+            if attr in base.methods:
+                fn = base.methods[attr]
+                decos = [ast.unparse(d) for d in fn.decorator_list]
+                clo = _Closure(fn, {}, self, base, module=base.module)
+                if "property" in decos:
+                    return self.apply(clo, [], {})
+                if decos:
+                    raise Unsupported(f"decorated record method {attr}")
+                return clo
+            raise Unsupported(f"record attribute {attr}")
+        if isinstance(base, StubObj):
+            if attr.startswith("__") or not hasattr(base, attr):
+                raise Unsupported(f"attribute {attr} of a scripted object")
+            v = getattr(base, attr)
+            return ("stub", v) if callable(v) else v
+        if isinstance(base, dict):
+            if attr in ("items", "keys", "values", "get", "setdefault", "update", "pop", "copy"):
+                return ("dict-method", base, attr)
+            raise Unsupported(f"dict attribute {attr}")
         if isinstance(base, ChainNode):
             if attr == "bijections":
                 return base.alias_of if base.alias_of is not None else base.children
@@ -657,6 +804,33 @@ class Evaluator:
             kwargs[k.arg] = self.ev(k.value, env)
         if isinstance(f, _Closure):
             return self.apply(f, args, kwargs)
+        if isinstance(f, tuple) and f and f[0] == "stub":
+            return f[1](*args, **kwargs)
+        if isinstance(f, StubObj) and callable(f):
+            return f(*args, **kwargs)
+        if isinstance(f, tuple) and f and f[0] == "record-class":
+            _, cname, names, defaults, methods, module, is_nt = f
+            vals = dict(zip(names, args))
+            if len(args) > len(names) or set(kwargs) - set(names) or set(kwargs) & set(vals):
+                raise Unsupported("record constructor arguments")
+            vals.update(kwargs)
+            for n_ in names:
+                if n_ not in vals:
+                    if n_ not in defaults:
+                        raise Unsupported(f"record field {n_} not given")
+                    vals[n_] = self.ev(defaults[n_], {})
+            return RecordObj(cname, list(names), [vals[n_] for n_ in names], methods, module, is_nt)
+        if isinstance(f, tuple) and f and f[0] == "record-replace":
+            base = f[1]
+            if args or set(kwargs) - set(base.names):
+                raise Unsupported("_replace arguments")
+            vals = [kwargs.get(n_, v_) for n_, v_ in zip(base.names, base.values)]
+            return RecordObj(base.cls_name, base.names, vals, base.methods, base.module, base.is_nt)
+        if isinstance(f, tuple) and f and f[0] == "dict-method":
+            _, d_, name = f
+            if name in ("items", "keys", "values"):
+                return list(getattr(d_, name)())
+            return getattr(d_, name)(*args, **kwargs)
         if f is CHAIN_T:
             seq = args[0] if args else kwargs.get("bijections")
             if seq is None:
